@@ -432,7 +432,7 @@ def run(tier, seed):
         if not a.startswith("ok"):
             if not any(x[0].startswith("nest-") or x[0].startswith("order-") for x in v.violations):
                 r.broken.append(f"the Lean checker rejects the recorded nestings of the {label} under the computed ranking: {a[:300]}")
-    return r.finish(RULE, assumptions=[
+    return r.finish(RULE, extra_cov={"traces_validated_against_impl": r.stats.get('library_operations_probed', 0) + r.stats.get('mixed_workload_schedules', 0)}, assumptions=[
         "which nested acquisitions a code path performs does not depend on the schedule (control flow between map calls is sequential code); the recorded pairs are those of the generated workloads",
         "the three std::sync::Mutex fields (site_packages_paths, editable_install_roots, workspace_root) are not instrumented: by inspection they are taken in one order (installs, then workspace) and no DashMap call is made while one is held with a non-empty iteration",
         "fairness / termination of the code between two lock operations is assumed by C12_progress (it says some thread can always move, not that the scheduler lets it)"])
